@@ -24,6 +24,10 @@
 (*   value at u, u +- h, u +- h/2 and the table derivative at u (the       *)
 (*   harness cross-validates the calculus table by Richardson-extrapolated *)
 (*   central differences, numpy only).                                     *)
+(* Invariants: Emit (enumerate-and-emit) and Laws (design level: the       *)
+(* closed forms of AdAlgebra against the ring axioms; a failure is a       *)
+(* machinery failure, never a verdict on porepy).  The property clauses    *)
+(* themselves are in spec/trace/J_AdAlgebra.tla.                           *)
 (***************************************************************************)
 EXTENDS AdAlgebra, Json
 
